@@ -68,9 +68,9 @@ def make_worker(tier):
         for c, syn, enc, v, fe in jobs:
             untagged_leaf = (c.family == 'S0' and '/' not in c.label)
             if tier == 'quick':
-                classes = 'ts' + ('a' if untagged_leaf and syn in ('ber', 'uper', 'oer') and len(enc) <= 4 else '')
+                classes = 'ts' + ('e' if syn != 'cxer' else '') + ('a' if untagged_leaf and syn in ('ber', 'uper', 'oer') and len(enc) <= 4 else '')
             else:
-                classes = 'tsid' + ('p' if len(enc) <= 40 else '') + ('ab' if c.family == 'S0' and syn != 'cxer' else 'b')
+                classes = 'tsid' + ('e' if syn != 'cxer' else '') + ('p' if len(enc) <= 40 else '') + ('ab' if c.family == 'S0' and syn != 'cxer' else 'b')
             start = 0
             hangs = 0
             for attempt in range(30):
@@ -119,7 +119,7 @@ def run(args):
     cov = dict(evaluations=stats['evaluations'], distinct_nontrivial=len(distinct),
                rule='seed encodings (reference DER + an indefinite-length variant, reference UPER and OER, asn1c CANONICAL-XER) of the typical value of every '
                     'type of families %s; mutation classes: t=every truncation, s=every single-byte substitution x all 256 values (XML: structural alphabet), '
-                    'a=every byte string of length <=2, thorough adds i/d=insertions/deletions, p=all 2-position substitutions over an 8-symbol alphabet, '
+                    'e=length lie with payload (substitution x256 in the first 6 octets + 48 filler octets, binary syntaxes), a=every byte string of length <=2, thorough adds i/d=insertions/deletions, p=all 2-position substitutions over an 8-symbol alphabet, '
                     'b=length-3 strings; each mutant decoded from an exact-size heap block, then printed, validated, encoded x5, freed; ledger must be empty. '
                     'non-trivial = seed whose mutants reach >= 3 distinct (rc, consumed) outcomes' % ','.join(fams),
                samples=samples, stats=dict(stats), trusted_base=['ASan/UBSan (nonnull-attribute off)', 'allocation ledger (drv/ledger.c)', 'gcc'])
